@@ -180,7 +180,9 @@ def _gen_roundtrip(rng, special=None):
         # labels over the whole label alphabet, built around one special character (now and then
         # non-ASCII labels: Python-side comparison only)
         if special == "unicode":
-            labels = rng.sample(UNICODE_LABELS, rng.randint(2, 4))
+            # (always one label that str.lower and str.casefold treat differently)
+            labels = ["stra\u00dfe"] + rng.sample([u for u in UNICODE_LABELS if u != "stra\u00dfe"],
+                                                  rng.randint(1, 3))
         else:
             labels = _alphabet_labels(rng, special, rng.randint(2, 5))
         n = max(n, 2)
